@@ -18,7 +18,8 @@ import (
 // Observation: everything a trie answers on a query set, as comparable strings.
 
 type obsOpt struct {
-	scans   bool // the trie supports scanning (stores complete keys)
+	typed   string // "I8".."I64" when the typed getters are within their domain, else ""
+	scans   bool   // the trie supports scanning (stores complete keys)
 	stat    bool
 	str     bool
 	marshal bool
@@ -52,6 +53,24 @@ func observe(st *trie.SlimTrie, qs []string, o obsOpt) []string {
 			l, e, r := st.Search(x)
 			return fmt.Sprintf("Search(%s)=%v,%v,%v", q(x), l, e, r)
 		}))
+		if o.typed != "" {
+			out = append(out, capture(func() string {
+				switch o.typed {
+				case "I8":
+					v, f := st.GetI8(x)
+					return fmt.Sprintf("GetI8(%s)=%v,%v", q(x), v, f)
+				case "I16":
+					v, f := st.GetI16(x)
+					return fmt.Sprintf("GetI16(%s)=%v,%v", q(x), v, f)
+				case "I32":
+					v, f := st.GetI32(x)
+					return fmt.Sprintf("GetI32(%s)=%v,%v", q(x), v, f)
+				default:
+					v, f := st.GetI64(x)
+					return fmt.Sprintf("GetI64(%s)=%v,%v", q(x), v, f)
+				}
+			}))
+		}
 	}
 	if o.scans {
 		out = append(out, capture(func() string {
@@ -230,7 +249,7 @@ func checkC05(c *Case, s *Stats) error {
 	classify(s, c, m, sh, ok)
 	qs := queries(m.AllKeys, c.Win, c.Extra, false)
 	small := !ok || sh.Inners < 1500
-	o := obsOpt{scans: scansOK(c), stat: true, str: small, marshal: false}
+	o := obsOpt{typed: typedEnc(c), scans: scansOK(c), stat: true, str: small, marshal: false}
 	a, bb := observe(t1, qs, o), observe(t2, qs, o)
 	if d := diffObs(a, bb); d != "" {
 		return viol("roundtrip-differs", "fresh vs loaded: %s", d)
@@ -380,7 +399,9 @@ func checkC05History(c *Case, s *Stats) error {
 				return viol("unmarshal", "twin load failed: %v", e)
 			}
 			pc := c.Pool[cur]
-			o := obsOpt{scans: scansOK(pc), stat: true, str: len(pc.Keys) < 1500, marshal: true}
+			pcc := *pc
+			pcc.Enc = c.Enc
+			o := obsOpt{typed: typedEnc(&pcc), scans: scansOK(pc), stat: true, str: len(pc.Keys) < 1500, marshal: true}
 			if d := diffObs(observe(twin, qs, o), observe(inst, qs, o)); d != "" {
 				return viol("residue", "%s: instance differs from a fresh twin loaded with the same stream: %s", what, d)
 			}
@@ -540,7 +561,7 @@ func checkC06(c *Case, s *Stats) error {
 	if len(uq) > 600 {
 		uq = uq[:600]
 	}
-	uo := obsOpt{scans: scansOK(c), stat: true, str: len(m.AllKeys) < 1000}
+	uo := obsOpt{typed: typedEnc(c), scans: scansOK(c), stat: true, str: len(m.AllKeys) < 1000}
 	if d := diffObs(observe(st, uq, uo), observe(st2, uq, uo)); d != "" {
 		return viol("roundtrip-differs", "%s-loaded trie vs its re-marshalled and reloaded copy: %s", c.Load, d)
 	}
